@@ -3,7 +3,7 @@ from __future__ import annotations
 
 from ..lin import Lin, Infeasible
 from ..avals import *   # noqa
-from ..decide import Runs, need_ge0, need_eq0, definite, soft, iterations
+from ..decide import require_instances, Runs, need_ge0, need_eq0, definite, soft, iterations
 from ..report import Ob, PROVED, REFUTED, UNDECIDED, func_where, ASSUMPTIONS, Failure
 from ..units import exc_key
 from .. import seqops
@@ -73,6 +73,8 @@ def check(prog, res, tier):
     ufi = prog.func(c05.READ)
     runs_u = Runs(prog, c05.unblock_entry(prog, True), res=res)
 
+    seen_c = {'reads': 0}
+
     def chk_c(p, mode):
         fails = []
         st = p.store
@@ -96,6 +98,7 @@ def check(prog, res, tier):
         evs = [e for e in p.events if e.under(c05.READ) or (e.kind == 'leave' and e.data.get('callee') == c05.READ)]
         for i, e in enumerate(evs):
             if e.kind == 'read' and e.data['file'] is f:
+                seen_c['reads'] += mode == 'inv'
                 nxt = next((x for x in evs[i + 1:] if (x.kind == 'setattr' and x.data['attr'] == 'buffer')
                             or (x.kind == 'read' and x.data['file'] is f) or x.kind in ('leave', 'return')), None)
                 appended = False
@@ -107,8 +110,10 @@ def check(prog, res, tier):
                     fails += need_eq0(st, e.data['data'].length(), 'a non-empty (partial) block is dropped instead of being '
                                                                    'appended to the buffer', e.node)
         return fails
-    res.add(runs_u.judge('C09.c', 'the unblocker appends a final partial block as a prefix of what was read and stops at the empty read',
-                         func_where(ufi), 'if not block: break; self.buffer += block[:1012]', chk_c))
+    res.add(require_instances(
+        runs_u.judge('C09.c', 'the unblocker appends a final partial block as a prefix of what was read and stops at the empty read',
+                     func_where(ufi), 'if not block: break; self.buffer += block[:1012]', chk_c),
+        seen_c['reads'], 'a read of the wrapped file inside Unblock1014.read'))
 
     # ---- C09.d IpmReader yields only loads results
     ici = prog.cls('mciipm.IpmReader')
